@@ -2659,6 +2659,23 @@ func (a *Agent) TaskDispatch(RequestID uint32, CommandID uint32, Parser *parser.
 
 				break
 
+			case DEMON_INFO_PROC_CREATE:
+
+				if Parser.CanIRead([]parser.ReadType{parser.ReadBytes, parser.ReadInt32}) {
+					var (
+						Path = Parser.ParseUTF16String()
+						PID  = Parser.ParseInt32()
+					)
+
+					logger.Debug(fmt.Sprintf("Agent: %x, Command: DEMON_INFO - DEMON_INFO_PROC_CREATE, Path: %v, PID: %d", AgentID, Path, PID))
+
+					Output["Message"] = fmt.Sprintf("Process started: Path:[%v] ProcessID:[%v]", Path, PID)
+				} else {
+					logger.Debug(fmt.Sprintf("Agent: %x, Command: DEMON_INFO - DEMON_INFO_PROC_CREATE, Invalid packet", AgentID))
+				}
+
+				break
+
 			default:
 				logger.Debug(fmt.Sprintf("Agent: %x, Command: DEMON_INFO - UNKNOWN (%d)", AgentID, InfoID))
 			}
